@@ -130,6 +130,11 @@ func runC15(e *Env) {
 				nn, known := flow.ErrKnownAt(errv, s)
 				good = known && !nn
 			}
+			if !good && errv != nil {
+				// one error variable for several steps, or the check behind a join: every path to the start has the step's success (E9)
+				d := dep
+				good, _ = pathsOf(p, mainFn).successBefore(s, func(c *ssa.Call) bool { return c == d })
+			}
 			r.Check(good, "E3.exec-dom", "sandbox.main/"+calleeNameCI(s)+"-after-"+calleeName(dep), p.Pos(s.Pos()),
 				"the target is started only behind the success edge of "+calleeName(dep),
 				fmt.Sprintf("the target can be started although %s failed or did not run (the process-start call is not dominated by its `err == nil` edge)", calleeName(dep)))
@@ -141,6 +146,7 @@ func runC15(e *Env) {
 		ec   *flow.ErrCheck
 	}
 	var fes []fe
+	nPathDecided := 0
 	for _, c := range flow.Calls(mainFn) {
 		call, ok := c.(*ssa.Call)
 		if !ok {
@@ -154,16 +160,45 @@ func runC15(e *Env) {
 			r.Bad("E3.exit", "sandbox.main/"+calleeName(call)+"/error-dropped", p.Pos(call.Pos()), "the error of "+calleeName(call)+" is discarded")
 			continue
 		}
+		mkc := r.Mark()
 		ecs := flow.FindErrChecks(errv)
 		if len(ecs) == 0 {
 			r.Bad("E3.exit", "sandbox.main/"+calleeName(call)+"/error-unchecked", p.Pos(call.Pos()), "the error of "+calleeName(call)+" is never compared with nil")
 		}
 		for _, ec := range ecs {
 			fes = append(fes, fe{calleeName(call), ec})
+			checkExitRegion(e, p, "sandbox.main/"+calleeName(call)+"-failure", ec.If.Block(), ec.Fail)
 		}
-	}
-	for _, f := range fes {
-		checkExitRegion(e, p, "sandbox.main/"+f.name+"-failure", f.ec.If.Block(), f.ec.Fail)
+		if r.FailedSince(mkc, "E3.exit") {
+			// decided on main's paths instead (E9): every path on which the step failed exits non-zero and starts nothing
+			ps := pathsOf(p, mainFn)
+			good, _ := ps.failTerminates(call)
+			if good {
+				for _, pth := range ps.paths {
+					failedAt := -1
+					for i, ev := range pth.events {
+						if ev.call == ssa.CallInstruction(call) && ev.ok < 0 {
+							failedAt = i
+						}
+					}
+					if failedAt < 0 {
+						continue
+					}
+					for _, ev := range pth.events[failedAt+1:] {
+						if c2, ok := ev.call.(*ssa.Call); ok && isProcessStart(c2) {
+							good = false
+						}
+					}
+				}
+			}
+			if good {
+				r.Retract(mkc, "E3.exit")
+				r.OK("E3.exit", "sandbox.main/"+calleeName(call)+"-failure", p.Pos(call.Pos()), "every path on which the step failed ends in an exit with non-zero status without starting a process ("+ps.describe()+")")
+				if len(ecs) == 0 {
+					nPathDecided++
+				}
+			}
+		}
 	}
 	// the "no arguments" edge: a branch on len(flag.Args()) == 0
 	nArgs := 0
@@ -198,7 +233,7 @@ func runC15(e *Env) {
 			checkExitRegion(e, p, "sandbox.main/no-arguments", b, fail)
 		}
 	}
-	r.Floor("E3.exit(failure edges)", len(fes)+nArgs, 4)
+	r.Floor("E3.exit(failure edges)", len(fes)+nArgs+nPathDecided, 4)
 
 	// policy flow
 	res := origin.NewResolver()
